@@ -24,7 +24,7 @@ PRECS = [2, 4, 8]
 
 
 def gen_case(rng, idx, first=None):
-    nodes = G.gen_spec(rng, first=first, dim=1 if rng.random() < 0.2 else 2)     # 1 in 5: Conv1d network
+    nodes = G.gen_spec(rng, first=first, dim=1 if rng.random() < 0.2 else 2, padmodes=True)     # 1 in 5: Conv1d network
     if rng.random() < 0.6:        # biased depthwise / residual pairs (shared weight quantizer) must occur often
         for nd in nodes:
             if nd['k'] in ('conv', 'dw'):
@@ -35,6 +35,9 @@ def gen_case(rng, idx, first=None):
             'ap': rng.sample(PRECS, rng.randint(1, 3)), 'wp': rng.sample(PRECS, rng.randint(1, 3)),
             'T': T, 'gumbel': rng.random() < 0.4, 'hard': rng.random() < 0.3, 'dsq': rng.random() < 0.25,
             'pretrain': rng.random() < 0.25, 'adversarial': True, 'idx': idx,
+            # when summary() / export() are called: after an eval forward (default); right after TRAINING-mode forwards with
+            # Gumbel sampling (the sampled coefficients are noisy); after the coefficients were changed with no forward since
+            'seq': rng.choice(['eval', 'eval', 'gumbel-train', 'alpha-update']),
             # successive passes through the SAME exported model after the first one: same batch again / a new batch
             # (other batch size) / eval()->train()->eval() toggle of both models
             'passes': rng.choice([['same', 'new'], ['new', 'same'], ['same', 'toggle', 'same', 'new'], ['new', 'toggle', 'new'], ['same', 'same', 'new']])}
@@ -93,17 +96,31 @@ def run_case(c):
         g = torch.Generator().manual_seed(c['seed'] ^ 0x5bd1)
         x = torch.rand((2,) + ishape, generator=g) * 1.3 - 0.1
         stage = 'forward'
-        if c['pretrain']:
+        seq = c.get('seq', 'eval')
+        if seq == 'gumbel-train':
+            p.update_softmax_options(gumbel=True, hard=c['hard'])
             p.train()
+            torch.manual_seed(c['aseed'])
             with torch.no_grad():
                 p(x)
-        p.eval()
-        with torch.no_grad():
-            y = p(x)
+                p(x)
+        else:
+            if c['pretrain']:
+                p.train()
+                with torch.no_grad():
+                    p(x)
+            p.eval()
+            with torch.no_grad():
+                p(x)
+            if seq == 'alpha-update':          # e.g. optimizer step / load_state_dict: no forward pass afterwards
+                G.set_alphas(random.Random(c['aseed'] ^ 0x2a2a), p)
         stage = 'summary'
         summ = p.summary()
         stage = 'export'
         e = p.export()
+        p.eval()
+        with torch.no_grad():
+            y = p(x)
         stage = 'export-forward'
         e.eval()
         with torch.no_grad():
@@ -215,6 +232,22 @@ def oracle(c, o):
                             'layer %s: summary() %s=%r, exported %s precision %r' % (ent['name'], key, s[key], slot, ep[slot])))
             if key in s and slot not in ep and ent['etype'] != 'QuantList':
                 out.append(('exported-layer-lacks-quantizer:' + slot, 'layer %s (%s)' % (ent['name'], ent['etype'])))
+    name2i = {ent['name']: i for i, ent in o['layers'].items()}
+    for i, ent in o['layers'].items():
+        s = ent['summary']
+        for slot, key in (('in', 'in_precision'), ('out', 'out_precision'), ('w', 'w_precision')):
+            q = ent.get(slot)
+            if key in s and q is not None:
+                qi = o['quantizers'][str(q)]
+                am = max(range(len(qi['alpha'])), key=lambda j: qi['alpha'][j])
+                if s[key] != qi['prec'][am]:
+                    out.append(('summary-differs-from-argmax-alpha:' + slot, 'layer %s: summary() %s=%r but the arg-max of its selection coefficients %r picks %r bits (summary()/export() called %s)'
+                                % (ent['name'], key, s[key], qi['alpha'], qi['prec'][am], {'eval': 'after an eval forward', 'gumbel-train': 'right after training-mode Gumbel forwards', 'alpha-update': 'after a coefficient update, no forward since'}[c.get('seq', 'eval')])))
+    for i, pr in o['producer'].items():
+        pi = name2i.get(pr['producer'])
+        if pi is not None and 'in_precision' in o['layers'][i]['summary'] and o['layers'][i]['summary']['in_precision'] != o['layers'][pi]['summary'].get('out_precision'):
+            out.append(('summary-in-precision-differs-from-producer-out', 'summary(): layer %s in_precision=%r, its producer %s out_precision=%r'
+                        % (o['layers'][i]['name'], o['layers'][i]['summary']['in_precision'], pr['producer'], o['layers'][pi]['summary'].get('out_precision'))))
     for i, pr in o['producer'].items():
         if pr['in'] != pr['producer_out']:
             # classify the call site: what lies between the layer and the features-defining producer
@@ -288,7 +321,7 @@ def run(ctx):
     built = ctx.build()
     ctx.rule = ('grammar networks of vlib/mps_gen.py (1..4 blocks of conv / conv-BN / depthwise / residual add of (x, conv x), of two convs, of a depthwise chain with its source / pooling, head pool-flatten-linear(-BN)-linear; '
                 'depthwise / residual blocks forced first in half of the cases, all conv biases on in 60%) x precision tuples from {2,4,8} (1..3, any order) for activations and weights x random alpha with arg-max margin >= 0.05 '
-                'x temperature in [0.05,20] (both ends forced) x gumbel/hard/disable_shared_quantizers/pre-training-forward flags x schedule of 2-3 further forward passes (same / new batch, mode toggles) through the same exported model; where a layer input quantizer is not its producer output quantizer object the two are made to select different precisions. '
+                'x temperature in [0.05,20] (both ends forced) x gumbel/hard/disable_shared_quantizers/pre-training-forward flags x conv padding_mode {zeros, circular, reflect, replicate} with padding > 0, paddings int / same / valid x moment of summary()+export() {after an eval forward, right after training-mode Gumbel forwards, after a coefficient update without forward} x schedule of 2-3 further forward passes (same / new batch, mode toggles) through the same exported model; where a layer input quantizer is not its producer output quantizer object the two are made to select different precisions. '
                 'one case = one network with one coefficient assignment; distinct by (architecture, precisions, selected indices); non-trivial = at least two candidate precisions somewhere and at least 2 searchable layers')
     n = 260 if ctx.quick else 2600
     cases = []
@@ -318,6 +351,12 @@ def run(ctx):
             ctx.dist['node:' + k] += 1
         ctx.dist['nprec_a:%d' % len(c['ap'])] += 1
         ctx.dist['conv%dd' % c['nodes'][0].get('dim', 2)] += 1
+        ctx.dist['seq:' + c.get('seq', 'eval')] += 1
+        for nd in c['nodes']:
+            if nd['k'] in ('conv', 'dw') and G.pad_of(nd) > 0:
+                ctx.dist['padding_mode:' + nd.get('pm', 'zeros')] += 1
+            if nd['k'] in ('conv', 'dw') and isinstance(nd.get('pad'), str):
+                ctx.dist['padding:' + nd['pad']] += 1
         ctx.dist['T:%s' % ('0.05' if c['T'] == 0.05 else '20' if c['T'] == 20 else 'mid')] += 1
         for fl in ('gumbel', 'hard', 'dsq', 'pretrain'):
             ctx.dist['%s:%s' % (fl, c[fl])] += 1
@@ -405,6 +444,7 @@ def replay(r):
         return 1
     o = run_case(c)
     print('network:', [nd['k'] for nd in c['nodes']])
+    print('summary()/export() called:', c.get('seq', 'eval'), '| padding modes:', sorted({nd.get('pm', 'zeros') for nd in c['nodes'] if nd['k'] in ('conv', 'dw')}))
     print('activation precisions', c['ap'], 'weight precisions', c['wp'], 'T', c['T'], 'gumbel', c['gumbel'], 'hard', c['hard'], 'disable_shared_quantizers', c['dsq'])
     print('property requires: MPS.eval()(x) == MPS.export().eval()(x) bit for bit; exported precisions == summary(); input precision of a layer == output precision of the producer of its input')
     if o['exc']:
